@@ -140,6 +140,16 @@ def run(ctx):
                                       ("x" * rng.randint(0, 5) + rng.choice(["\u00e9", "\u4e2d", "\U0001F600"]) * 60).encode(),
                                       ("a" * rng.randint(58, 70) + "\u00fc\u4e2d\U0001F600" * 4 + "\t{}").encode(),
                                       ("\U0001F4A9" * 40).encode()])
+                if rng.random() < 0.35:
+                    # built from a real record of this bucket: JSON intact, checksum field short, empty, padded or holed
+                    rr = rng.choice(recs)
+                    line = raw[rr["start"] + 1:rr["end"]]
+                    hx, js = line.split(b"\t", 1)
+                    k = rng.randrange(0, 64)
+                    garbage = rng.choice([b"\t" + js, hx[:k] + b"\t" + js, hx[:k] + hx[k + 2:] + b"\t" + js, hx + b"00\t" + js,
+                                          hx[:k & ~1] + b"\t" + js, b" " + hx + b"\t" + js, hx.upper() + b"\t" + js])
+                    if cls == "insert-line-nonl":
+                        cls = "insert-line"        # these only make sense as lines of their own
                 ins = (b"\n" + garbage) if cls == "insert-line" else garbage
                 new = raw[:at] + ins + raw[at:]
                 cases.append((cls, (at, len(ins)), new, None))
